@@ -55,7 +55,15 @@ func hostileALPN(r *kernel.Run, srv *World, registered *Ident) ([]string, string
 	b64 := func(b []byte) string { return base64.RawStdEncoding.EncodeToString(b) }
 	var list []string
 	class := ""
-	switch tp.Draw(13) {
+	switch tp.Draw(14) {
+	case 13:
+		// an authentication request naming a well-formed public key of another algorithm, with plausible nonce and signatures
+		g := &types.GenerateServerCertificatesRequest{CertificatePublicKeyPkix: foreignAlgorithmPkix(tp.Draw(2)), Nonce: tp.Bytes(32), NonceSignature: tp.Bytes(64)}
+		if tp.Draw(2) == 0 {
+			g.ClientState, g.ClientStateSignature = detMarshal(mkStruct(r, 2)), tp.Bytes(tp.Range(1, 100))
+		}
+		b, _ := proto.Marshal(g)
+		list, class = chunkALPN(nodeenrollment.AuthenticateNodeNextProtoV1Prefix, b64(b)), "authenticate-with-key-of-other-algorithm"
 	case 12:
 		// an otherwise valid fetch request whose certificate key is labelled Ed25519 but is a key of another algorithm
 		_, info := BuildFetch(HonestSpec(NewIdent("f")))
